@@ -14,7 +14,7 @@ import (
 // informer between two ticks. Whatever the intermediate version was, the schedule
 // after the flush follows the JobConfig's current API state (the last version).
 func VerifH_C03_twoEvents() {
-	env := verifSetupCron(verifCronOpts{P: 1, K: 1, maxMissedHi: 2})
+	env := verifSetupCron(verifCronOpts{P: 1, K: 1, maxMissedHi: 2, warm: true})
 	v := env.jcs[0]
 	for _, e := range v.exprs {
 		e.CheckLoc = false
